@@ -88,6 +88,26 @@ pub fn ref_cov_path(w: i32, h: i32, xf: &Xf, path: &PathSpec, aa: bool) -> Resul
     })
 }
 
+/// coverage of a text run: the alpha an opaque white SrcOver draw_text leaves on a transparent
+/// surface (over_in(white, 0, m) has alpha exactly m) - the glyph rasteriser is font-kit's, not
+/// the subject's; what is checked is how draw_text composites that coverage
+pub fn ref_cov_text(w: i32, h: i32, xf: &Xf, size: f32, text: &str, x: f32, y: f32, aa: bool) -> Result<Vec<u8>, String> {
+    let t = xf_to(xf);
+    if !(t.determinant() != 0.0) || !t.determinant().is_finite() {
+        return Ok(vec![0; (w * h).max(0) as usize]);
+    }
+    guard(|| {
+        let mut dt = DrawTarget::new(w, h);
+        dt.set_transform(&t);
+        with_font(|font| {
+            if let Some(font) = font {
+                dt.draw_text(font, size, text, Point::new(x, y), &Source::Solid(SolidSource { r: 255, g: 255, b: 255, a: 255 }), &DrawOptions { blend_mode: BlendMode::SrcOver, alpha: 1.0, antialias: if aa { AntialiasMode::Gray } else { AntialiasMode::None } });
+            }
+        });
+        dt.get_data().iter().map(|p| (p >> 24) as u8).collect()
+    })
+}
+
 pub fn ref_cov_stroke(w: i32, h: i32, xf: &Xf, path: &PathSpec, style: &StyleSpec, aa: bool) -> Result<Vec<u8>, String> {
     let t = xf_to(xf);
     if !(t.determinant() != 0.0) || !t.determinant().is_finite() {
@@ -272,6 +292,7 @@ fn draw_model<'a>(before: &Snap, op: &'a Op, solid_tmp: &'a mut Option<SrcSpec>)
             *solid_tmp = Some(SrcSpec::Image { w: *iw, h: *ih, data: data.clone(), repeat: false, bilinear: true, xf: xf_from(&t) });
             DrawModel { cov: ref_cov_path(w, h, &before.xf, &PathSpec::rect(*x, *y, *sw, *sh), o.aa)?, mode: o.mode, src: SrcEval::new(solid_tmp.as_ref().unwrap(), o.alpha, &before.xf) }
         }
+        Op::Text(size, text, x, y, s, o) => DrawModel { cov: ref_cov_text(w, h, &before.xf, *size, text, *x, *y, o.aa)?, mode: o.mode, src: SrcEval::new(s, o.alpha, &before.xf) },
         _ => return Ok(None),
     }))
 }
